@@ -491,6 +491,9 @@ var (
 	verbPool  = []string{"get", "watch", "v", "x", "a-b", "get"}
 	methPool  = []string{"GET", "POST", "GET", "POST", "PUT", "DELETE", "get"}
 	segPool   = []string{"a", "b", "c", "v1", "users", "", "x%2Fy", "%41", "%25", "%2541", "%zz", "%", "a%", "a%4", "\xc3\xa9", "a b", "a+b", "a:b", ":get", "a:get", "x:v", "%3A", "%3a", "%2f", "~", "A", "a%41", "%2F", "%3Fq", "a;b", "%23", "%5B%5D", "100%", "%%", "%00", "a\x7fb", "%e4%b8%96", "..", "."}
+	// verbs with ':' (only behind a final variable) and literals with ':' (only before the last segment)
+	colonVerbPool = []string{"batch:cancel", "a:b", "v:v", "x:get", "a:b:c", "get:", ":v", "a:", "b:cancel", "watch:x"}
+	colonLitPool  = []string{"a:b", "x:get", ":v", "a:", "v1:batch", "a:b:c"}
 	exSymbols = []string{"a", "b", "", "%2F", "a:v", "%zz"}
 )
 
@@ -558,7 +561,34 @@ func genTmpl(r *rand.Rand) tmpl {
 	if r.Intn(10) < 3 {
 		t.verb = common.Pick(r, verbPool)
 	}
+	// a literal containing ':' that is NOT a verb: only in front of the last segment (in the last one the
+	// parser reads the text after the last ':' as the verb)
+	if len(t.segs) >= 2 && r.Intn(12) == 0 {
+		if i := r.Intn(len(t.segs) - 1); t.segs[i].kind == 'L' {
+			t.segs[i].lit = common.Pick(r, colonLitPool)
+		}
+	}
+	// after a closing '}' the verb is EVERYTHING behind the first ':' (gwbased tokenize): verbs containing ':'
+	if last := t.segs[len(t.segs)-1]; last.kind == 'V' && r.Intn(4) == 0 {
+		t.verb = common.Pick(r, colonVerbPool)
+		dist["tmpl-colon-verb"]++
+	}
 	return t
+}
+
+// verbFamily: copies of t (which ends in a variable) whose verbs are suffixes of one another / contain ':' —
+// bindings competing for the same last path segment
+func verbFamily(r *rand.Rand, t tmpl) []tmpl {
+	fam := common.Pick(r, [][]string{
+		{"batch:cancel", "cancel", ""}, {"cancel", "batch:cancel"}, {"a:b", "b", "a"}, {"b", "a:b", ""}, {"", "v:v", "v"},
+		{"x:", "x"}, {"a:b:c", "b:c", "c"}, {"c", "a:b:c"}, {":v", "v"}, {"get", "x:get", ""},
+	})
+	var out []tmpl
+	for _, v := range fam {
+		c := tmpl{segs: append([]seg{}, t.segs...), verb: v}
+		out = append(out, c)
+	}
+	return out
 }
 
 var (
@@ -721,6 +751,26 @@ func genTable(r *rand.Rand) (string, []tmpl, []string) {
 			}
 		}
 	}
+	if r.Intn(5) == 0 { // competing verbs on one shape: /…/{x}:a:b, /…/{x}:b, /…/{x}
+		base := pool[r.Intn(len(pool))]
+		if n := len(base.segs); n > 0 && base.segs[n-1].kind != 'V' && !(n == 1 && base.segs[0].lit == eof) {
+			base.segs = append(append([]seg{}, base.segs...), seg{kind: 'V', path: common.Pick(r, pathPool), parts: []part{{kind: 'S'}}})
+		}
+		if n := len(base.segs); n > 0 && base.segs[n-1].kind == 'V' {
+			pool = append(pool, verbFamily(r, base)...)
+			dist["table-verb-family"]++
+		}
+	}
+	for i := range pool { // a verb containing ':' is only expressible behind a final variable
+		if n := len(pool[i].segs); strings.Contains(pool[i].verb, ":") && (n == 0 || pool[i].segs[n-1].kind != 'V') {
+			pool[i].verb = common.Pick(r, verbPool)
+		}
+		// … and a literal containing ':' only in front of the last segment
+		if n := len(pool[i].segs); n > 0 && pool[i].segs[n-1].kind == 'L' && strings.Contains(pool[i].segs[n-1].lit, ":") {
+			pool[i].segs = append([]seg{}, pool[i].segs...)
+			pool[i].segs[n-1].lit = "c"
+		}
+	}
 	var all []tmpl
 	var allM []string
 	nb := 0
@@ -788,6 +838,50 @@ func (Area) Gen(r *rand.Rand, tier string, emit func(string)) {
 	for _, target := range []string{"/p.S/C", "/p.S/C/", "/p.S/A", "/w/a/b%2Fc/d:watch", "/w/:watch", "/w:watch", "/w/%2f%41:watch"} {
 		for _, kind := range []string{"req", "raw", "path"} {
 			emit(fmt.Sprintf("r %s %s %s %s", tbl, common.HexS("POST"), kind, common.HexS(target)))
+		}
+	}
+	// verbs containing ':' (behind a variable the verb is everything after the first ':'): the verb must be cut
+	// PER ROUTE at ":"+<that route's verb>, never once at the last ':' (C03_verb_split_per_route; seeded C03-m10)
+	{
+		v1 := seg{kind: 'L', lit: "v1"}
+		name := seg{kind: 'V', path: "name", parts: []part{{kind: 'S'}}}
+		qs := seg{kind: 'V', path: "name", parts: []part{{kind: 'L', lit: "queues"}, {kind: 'S'}}}
+		bc := tmpl{segs: []seg{v1, name}, verb: "batch:cancel"}
+		cc := tmpl{segs: []seg{v1, name}, verb: "cancel"}
+		nn := tmpl{segs: []seg{v1, name}}
+		bp := tmpl{segs: []seg{v1, qs}, verb: "batch:purge"}
+		mk := func(ts ...tmpl) string {
+			var ms []string
+			for i, t := range ts {
+				hm := "POST"
+				if t.verb == "batch:purge" {
+					hm = "DELETE"
+				}
+				ms = append(ms, common.HexS(fmt.Sprintf("/s.J/M%d", i))+"~"+common.HexS(hm)+"@A:"+t.enc())
+			}
+			return strings.Join(ms, "!")
+		}
+		for _, tb := range []string{mk(bc, cc, bp), mk(cc, bc, bp), mk(bc, cc, nn, bp), mk(nn, bc, cc), mk(bc, bp), mk(cc, nn, bp)} {
+			for _, target := range []string{"/v1/jobs:batch:cancel", "/v1/jobs:cancel", "/v1/jobs", "/v1/:batch:cancel", "/v1/jobs:batch", "/v1/jobs:batch:", "/v1/a%3Ab:batch:cancel", "/v1/jobs:batch%3Acancel", "/v1/jobs:x:batch:cancel"} {
+				for _, kind := range []string{"req", "raw", "path", "srv"} {
+					count("r-colon-verb-builtin")
+					emit(fmt.Sprintf("r %s %s %s %s", tb, common.HexS("POST"), kind, common.HexS(target)))
+				}
+			}
+			for _, target := range []string{"/v1/queues/q1:batch:purge", "/v1/queues/q1:purge", "/v1/queues/:batch:purge", "/v1/queues/q1:batch"} {
+				for _, kind := range []string{"req", "raw"} {
+					count("r-colon-verb-builtin")
+					emit(fmt.Sprintf("r %s %s %s %s", tb, common.HexS("DELETE"), kind, common.HexS(target)))
+				}
+			}
+		}
+		for _, t := range []tmpl{bc, cc, nn, bp} {
+			for _, l := range [][]string{{"v1", "jobs"}, {"v1", "jobs:batch"}, {"v1", "jobs:batch:cancel"}, {"v1", "queues", "q1"}, {"v1", "queues", "q1:batch"}} {
+				for _, v := range []string{"", "cancel", "batch:cancel", "purge", "batch:purge"} {
+					count("m-colon-verb-builtin")
+					emit(fmt.Sprintf("m A:%s %s %s", t.enc(), hexList(l), common.HexS(v)))
+				}
+			}
 		}
 	}
 	for _, target := range []string{"/", "/a", "/a%41", "/a%2541", "/a%zz", "/a?b", "/a?", "/a?b?", "/a%3Fb", "/a#b", "/a b", "*", "", "a", "http://h/a", "//h/a", "/a/../b", "/%", "/%4", "/a\x01", "/a\x7f", "/\xc3\xa9", "/%C3%A9", "/a;b,c", "/a[b]", "/a|b", "/!$&'()*+,;=:@", "/a%2Fb", "/a%2fb", "/~-._", "/a\\b", "/a\"b", "/a<b>", "/a^`{}",
